@@ -3,15 +3,7 @@
 //!   vmon run <engine> --tier quick|thorough --seed N --shard i/N [--sigfile PATH]
 //!   vmon replay <engine> <hex-bytes>
 //!   vmon list
-mod engines;
-mod gen;
-mod likely;
-mod model;
-mod mon;
-mod obs;
-mod refspec;
-mod rng;
-mod stream;
+use vmon::{engines, gen, model, mon, rng};
 
 use mon::{Ctx, Tier};
 use serde_json::json;
@@ -93,11 +85,22 @@ fn main() {
             });
             let mut r = rng::Rng::new(rng::mix(&[seed, 0xC20]));
             let n = if quick { 60_000 } else { 600_000 };
+            // the calls are pure functions of their input: echo lines (the same input again, directly
+            // or after one other call) make a result that depends on the call history visible as a
+            // transcript difference between configurations
+            let mut prev: Vec<u8> = Vec::new();
             for i in 0..n {
                 let sl = gen::gen_sloc(&mut r, true, true);
                 let b = gen::render_random(&sl.tokens(), &mut r);
                 let b = if i % 2 == 0 { b } else { gen::mutate(&b, &mut r) };
                 writeln!(out, "P {}", mon::hex(&b)).unwrap();
+                if r.chance(1, 6) {
+                    writeln!(out, "P {}", mon::hex(&b)).unwrap();
+                }
+                if r.chance(1, 12) && !prev.is_empty() {
+                    writeln!(out, "P {}", mon::hex(&prev)).unwrap();
+                }
+                prev = b;
             }
             for s in gen::corpus() {
                 writeln!(out, "P {}", mon::hex(s.as_bytes())).unwrap();
